@@ -2,6 +2,7 @@ package main
 
 import (
 	"go/types"
+	"sync"
 
 	"golang.org/x/tools/go/ssa"
 )
@@ -14,6 +15,8 @@ type G struct {
 	enabled func() bool // for the pending visible operation; nil = always
 	what    string
 	obj     interface{} // synchronisation object of the pending operation (nil = conflicts with everything)
+	read    bool        // the pending operation only reads obj (two reads commute)
+	send    bool
 }
 
 type nativeFn struct {
@@ -25,11 +28,29 @@ type ctxObj struct {
 	parent   *ctxObj
 	children []*ctxObj
 	done     bool
+	deadline bool // cancelled by its timer
 	doneCh   *chanV
 	cause    value
 }
 
 type mutexState struct{ locked bool }
+type rwState struct {
+	writer  bool
+	readers int
+}
+
+func (i *Interp) rw(p value) *rwState {
+	ptr := p.(*value)
+	if i.cs.rws == nil {
+		i.cs.rws = map[*value]*rwState{}
+	}
+	st := i.cs.rws[ptr]
+	if st == nil {
+		st = &rwState{}
+		i.cs.rws[ptr] = st
+	}
+	return st
+}
 type wgState struct{ n int64 }
 type onceState struct{ running, done bool }
 
@@ -39,34 +60,117 @@ type concState struct {
 	abort   bool
 	fatal   interface{}
 	mutexes map[*value]*mutexState
+	rws     map[*value]*rwState
+	wg      sync.WaitGroup
 	wgs     map[*value]*wgState
 	onces   map[*value]*onceState
 	switches int
 	states, transitions int
-	sleep    map[int]interface{} // gid -> obj of its pending op, for sleep-set reduction
+	sleep    map[int]pendingOp // gid -> its pending op, for sleep-set reduction
+	kinds    map[string]int
+	coarse   bool
 	por      bool
 }
 
 type abortPath struct{}
 
 func (i *Interp) initConc(por bool) {
-	g0 := &G{id: 0, resume: make(chan struct{})}
-	i.cs = &concState{sleep: map[int]interface{}{}, por: por, gs: []*G{g0}, cur: g0, mutexes: map[*value]*mutexState{}, wgs: map[*value]*wgState{}, onces: map[*value]*onceState{}}
+	g0 := &G{id: 0, resume: make(chan struct{}, 1)}
+	i.cs = &concState{sleep: map[int]pendingOp{}, por: por, gs: []*G{g0}, cur: g0, mutexes: map[*value]*mutexState{}, wgs: map[*value]*wgState{}, onces: map[*value]*onceState{}}
 }
 
 // yield is called before a visible operation; it may switch goroutines.
 func (i *Interp) yield(what string, enabled func() bool, obj ...interface{}) {
+	i.yieldRW(what, enabled, false, obj...)
+}
+
+// yieldR announces a visible operation that only reads its object.
+func (i *Interp) yieldR(what string, enabled func() bool, obj interface{}) {
+	i.yieldRW(what, enabled, true, obj)
+}
+
+func (i *Interp) yieldRW(what string, enabled func() bool, read bool, obj ...interface{}) {
 	cs := i.cs
 	me := cs.cur
 	me.enabled = enabled
 	me.what = what
 	me.obj = nil
+	me.read = read
+	me.send = what == "send"
 	if len(obj) > 0 {
 		me.obj = obj[0]
+	}
+	if cs.kinds == nil {
+		cs.kinds = map[string]int{}
+	}
+	cs.kinds[what]++
+	if cs.coarse && what != "emit" && what != "Yield" && (enabled == nil || enabled()) {
+		// coarse scheduling: context switches only before observable events, at
+		// operations that block, and at goroutine start
+		me.enabled = nil
+		return
 	}
 	i.schedule(me)
 	me.enabled = nil
 }
+
+type pendingOp struct {
+	obj  interface{}
+	read bool
+	send bool // channel send (as opposed to receive)
+}
+
+func ctxAncestorOrSelf(a, d *ctxObj) bool {
+	for ; d != nil; d = d.parent {
+		if d == a {
+			return true
+		}
+	}
+	return false
+}
+
+// independent: two pending visible operations commute from the current state.
+func independent(a, b pendingOp) bool {
+	if a.obj == nil || b.obj == nil {
+		return false
+	}
+	if a.read && b.read {
+		return true
+	}
+	ca, aok := a.obj.(*ctxObj)
+	cb, bok := b.obj.(*ctxObj)
+	if aok && bok {
+		// cancel(c) writes c's subtree; Err/Done(d) reads d's state, which depends on
+		// its ancestors' cancellation
+		switch {
+		case !a.read && !b.read:
+			return !ctxAncestorOrSelf(ca, cb) && !ctxAncestorOrSelf(cb, ca)
+		case !a.read:
+			return !ctxAncestorOrSelf(ca, cb)
+		default:
+			return !ctxAncestorOrSelf(cb, ca)
+		}
+	}
+	if a.obj != b.obj {
+		return true
+	}
+	// same channel used as a counting semaphore (zero-size elements): two
+	// operations commute when both stay enabled whichever goes first
+	if ch, ok := a.obj.(*chanV); ok && ch.zeroSize && ch.cap > 0 && !ch.closed {
+		n, c := len(ch.buf), ch.cap
+		switch {
+		case a.send && b.send:
+			return n+2 <= c
+		case !a.send && !b.send:
+			return n >= 2
+		default:
+			return n >= 1 && n < c
+		}
+	}
+	return false
+}
+
+
 
 // schedule picks the next goroutine to run; me is the caller (parked or exiting).
 func (i *Interp) schedule(me *G) {
@@ -77,6 +181,7 @@ func (i *Interp) schedule(me *G) {
 		}
 		panic(abortPath{})
 	}
+	cs.transitions++
 	var en []*G
 	alive := 0
 	for _, g := range cs.gs {
@@ -100,7 +205,7 @@ func (i *Interp) schedule(me *G) {
 	if cs.por {
 		var cand []*G
 		for _, g := range en {
-			if o, asleep := cs.sleep[g.id]; asleep && o == g.obj {
+			if o, asleep := cs.sleep[g.id]; asleep && o.obj == g.obj && o.read == g.read {
 				continue
 			}
 			cand = append(cand, g)
@@ -114,16 +219,16 @@ func (i *Interp) schedule(me *G) {
 			k = i.ex.choose(len(cand), "sched")
 		}
 		chosen := cand[k]
-		ns := map[int]interface{}{}
-		indep := func(o interface{}) bool { return o != nil && chosen.obj != nil && o != chosen.obj }
+		ns := map[int]pendingOp{}
+		cop := pendingOp{chosen.obj, chosen.read, chosen.send}
 		for gid, o := range cs.sleep {
-			if gid != chosen.id && indep(o) {
+			if gid != chosen.id && independent(o, cop) {
 				ns[gid] = o
 			}
 		}
 		for _, g := range cand[:k] {
-			if indep(g.obj) {
-				ns[g.id] = g.obj
+			if op := (pendingOp{g.obj, g.read, g.send}); independent(op, cop) {
+				ns[g.id] = op
 			}
 		}
 		cs.sleep = ns
@@ -131,6 +236,7 @@ func (i *Interp) schedule(me *G) {
 	}
 	k := 0
 	if len(en) > 1 {
+		cs.states++
 		k = i.ex.choose(len(en), "sched")
 		cs.switches++
 	}
@@ -189,13 +295,17 @@ func (i *Interp) killAll() {
 			}
 		}
 	}
+	// every coroutine has unwound before the path's statistics are read
+	cs.wg.Wait()
 }
 
 func (i *Interp) spawn(fn value, args []value) {
 	cs := i.cs
-	g := &G{id: len(cs.gs), resume: make(chan struct{}), what: "start"}
+	g := &G{id: len(cs.gs), resume: make(chan struct{}, 1), what: "start"}
+	cs.wg.Add(1)
 	cs.gs = append(cs.gs, g)
 	go func() {
+		defer cs.wg.Done()
 		<-g.resume
 		defer func() {
 			r := recover()
@@ -242,6 +352,7 @@ var ctxType types.Type // placeholder dynamic type for engine contexts
 
 func newCtx(parent *ctxObj) *ctxObj {
 	c := &ctxObj{parent: parent, doneCh: &chanV{cap: 0}}
+	c.doneCh.ctx = c
 	if parent != nil {
 		parent.children = append(parent.children, c)
 		if parent.done {
@@ -249,6 +360,13 @@ func newCtx(parent *ctxObj) *ctxObj {
 			c.doneCh.closed = true
 			c.cause = parent.cause
 		}
+	}
+	return c
+}
+
+func (c *ctxObj) root() *ctxObj {
+	for c.parent != nil {
+		c = c.parent
 	}
 	return c
 }
@@ -273,17 +391,40 @@ func ctxOf(v value) *ctxObj {
 	return itf.v.(*ctxObj)
 }
 
+// ctxErrValue is the value of context.Canceled / context.DeadlineExceeded.
+func (i *Interp) ctxErrValue(name string) value {
+	if p := i.prog.ImportedPackage("context"); p != nil {
+		if g := p.Var(name); g != nil {
+			v := *i.global(g)
+			if e, ok := v.(iface); ok && e.t != nil {
+				return e
+			}
+		}
+	}
+	return mkError(TStr("context canceled"))
+}
+
 func (i *Interp) ctxMethod(c *ctxObj, name string) value {
 	switch name {
 	case "Done":
 		return &nativeFn{"ctx.Done", func(i *Interp, _ *frame, _ []value) value { return c.doneCh }}
 	case "Err":
 		return &nativeFn{"ctx.Err", func(i *Interp, _ *frame, _ []value) value {
-			i.yield("ctx.Err", nil, c.doneCh)
+			i.yieldR("ctx.Err", nil, c)
 			if c.done {
-				return mkError(TStr("context canceled"))
+				if c.deadline {
+					return i.ctxErrValue("DeadlineExceeded")
+				}
+				return i.ctxErrValue("Canceled")
 			}
 			return iface{}
+		}}
+	case "Value":
+		return &nativeFn{"ctx.Value", func(i *Interp, _ *frame, _ []value) value { return iface{} }}
+	case "Deadline":
+		return &nativeFn{"ctx.Deadline", func(i *Interp, _ *frame, _ []value) value {
+			fault("ctx.Deadline not modelled")
+			return nil
 		}}
 	}
 	fault("ctx method %s", name)
@@ -293,6 +434,11 @@ func (i *Interp) ctxMethod(c *ctxObj, name string) value {
 func (i *Interp) recv(ch *chanV) value {
 	if ch == nil {
 		i.yield("recv nil chan", func() bool { return false })
+	}
+	if ch.ctx != nil {
+		// receive from a context's Done channel: a read of the context tree's state
+		i.yieldR("ctx.Done", func() bool { return ch.closed }, ch.ctx)
+		return nil
 	}
 	i.yield("recv", func() bool { return len(ch.buf) > 0 || ch.closed }, ch)
 	if len(ch.buf) > 0 {
@@ -316,7 +462,7 @@ func init() {
 		return func(i *Interp, _ *frame, _ *ssa.Function, a []value) value {
 			c := newCtx(ctxOf(a[0]))
 			cancel := &nativeFn{"cancel", func(i *Interp, _ *frame, args []value) value {
-				i.yield("cancel", nil, c.doneCh)
+				i.yield("cancel", nil, c)
 				var cause value
 				if causeArg && len(args) > 0 {
 					cause = args[0]
@@ -348,6 +494,45 @@ func init() {
 			i.cs.mutexes[p].locked = false
 			return nil
 		},
+		// The RWMutexes of this code base guard the ordered maps (Vars, Tasks, Includes,
+		// Matrix). Their operations are not scheduling points: each guarded map
+		// operation is one atomic step (it performs no other visible operation while
+		// holding the lock). Exclusion is still checked.
+		"(*sync.RWMutex).Lock": func(i *Interp, _ *frame, _ *ssa.Function, a []value) value {
+			st := i.rw(a[0])
+			if st.writer || st.readers > 0 {
+				fault("RWMutex.Lock would block inside an atomic step (writer=%v readers=%d)", st.writer, st.readers)
+			}
+			st.writer = true
+			return nil
+		},
+		"(*sync.RWMutex).Unlock": func(i *Interp, _ *frame, _ *ssa.Function, a []value) value {
+			i.rw(a[0]).writer = false
+			return nil
+		},
+		"(*sync.RWMutex).RLock": func(i *Interp, _ *frame, _ *ssa.Function, a []value) value {
+			st := i.rw(a[0])
+			if st.writer {
+				fault("RWMutex.RLock would block inside an atomic step")
+			}
+			st.readers++
+			return nil
+		},
+		"(*sync.RWMutex).RUnlock": func(i *Interp, _ *frame, _ *ssa.Function, a []value) value {
+			i.rw(a[0]).readers--
+			return nil
+		},
+		"context.Cause": func(i *Interp, _ *frame, _ *ssa.Function, a []value) value {
+			c := ctxOf(a[0])
+			if c == nil || !c.done {
+				return iface{}
+			}
+			if cv, ok := c.cause.(iface); ok && cv.t != nil {
+				return cv
+			}
+			return i.ctxErrValue("Canceled")
+		},
+		"context.TODO": bg,
 		"(*sync.WaitGroup).Add": func(i *Interp, _ *frame, _ *ssa.Function, a []value) value {
 			p := a[0].(*value)
 			w := i.cs.wgs[p]
